@@ -25,7 +25,7 @@ func checkC03(c *Ctx) {
 	c.Rule("C03.R5", "axis discipline of the coordinate predicates the measures rely on (hole detection by box and point-in-ring tests, on-segment pre-tests): no comparison relates an X ordinate to a Y ordinate")
 	c.Rule("C03.R4", "point-to-segment distance: at the foot point S + b·(E−S) the projection parameter satisfies 0 ≤ b ≤ 1 on every path (otherwise the end points are returned), and the division producing b has a non-zero divisor (zero-length segments cannot yield NaN)")
 	c03model(c)
-	checkSegmentDistance(c, "C03.R4")
+	segDistModel(c, "C03.R4")
 	checkAxisDiscipline(c, "C03.R5", "geom", "op")
 	c.Floor("C03.R5", 2)
 	c.Floor("C03.R4", 2)
